@@ -269,6 +269,21 @@ StoreAfterExplanation == [][(stored' = stored + 1) => (pc = "store" /\ (seen = 0
 NeverOwnBackground == pc \in {"draw", "imodel", "lossfeat", "impute"} => stored = 0
 SeenCountsReturns == [][(outcome' = "ok" /\ outcome # "ok") => seen' = seen + 1]_vars
 
+\* the form of the commit that EffProof.tla (TLAPS: efficiency for streams of any length) assumes: every tracker applies
+\* the same linear map val' = P * val + Q * v to its series - P = 1 - alpha, Q = alpha for exponential smoothing; for the
+\* Welford mean the running sums S = n * mean follow S' = S + v (P = Q = 1) - and the chain of losses ends at the model loss
+OldVal(m, f) == IF f \in DOMAIN m.trk THEN m.trk[f].val ELSE QZero
+OldN(m, f) == IF f \in DOMAIN m.trk THEN m.trk[f].n ELSE 0
+LinearUpd(old, oldn, new, v) ==
+   IF Kind = "es" THEN new.val = QAdd(QMul(QSub(QOne, Alpha), old), QMul(Alpha, v))
+   ELSE QMul(QInt(oldn + 1), new.val) = QAdd(QMul(QInt(oldn), old), v)
+CommitIsLinear ==
+   [][(pc = "commit" /\ pc' # "commit" /\ Mode = "sage" /\ ~CommitEarly) =>
+        /\ L[D + 1] = Lm
+        /\ \A f \in Feat : LinearUpd(OldVal(imp, f), OldN(imp, f), imp'.trk[f],
+                                      QSub(L[S!PosOf(order, f)], L[S!PosOf(order, f) + 1]))
+        /\ LinearUpd(ml.val, ml.n, ml', L[1]) /\ LinearUpd(mo.val, mo.n, mo', Lm)]_vars
+
 (* ---- liveness (checked under weak fairness of the steps of a running call; callbacks terminate) ---- *)
 \* every step except the environment's decision to make another call
 InCall == pc # "idle"
